@@ -332,6 +332,7 @@ func TestCheck(t *testing.T) {
 			}
 		}
 	}
+	manyInFlight(t, rep, shard, of)
 	pcs := panicCases()
 	rep.Info["cases_total"] = len(cases) + len(pcs)
 	n := 0
